@@ -477,6 +477,18 @@ def gen_pipeline(rng: Random, tag: str = "", n_items: tuple[int, int] = (1, 4), 
     spec["transformations"] = [
         gen_transformation(rng, pick(rng, kinds) if kinds else None, i, 0, tag) for i in range(n)
     ]
+    if chance(rng, 0.3) and spec["transformations"]:
+        # an item that depends on whether an earlier, rule-conditional item was applied to *this* rule
+        first = spec["transformations"][0]
+        first.setdefault("id", "it0")
+        if "rule_conditions" not in first and first["type"] not in ("rule_failure",):
+            first["rule_conditions"] = [{"type": "logsource", "product": pick(rng, PRODUCTS)}]
+        dep = gen_transformation(rng, pick(rng, ["set_state", "field_name_suffix", "add_field", "field_name_prefix"]),
+                                 len(spec["transformations"]), 0, tag + "dep")
+        dep["rule_conditions"] = [{"type": "processing_item_applied", "processing_item_id": first["id"]}]
+        dep.pop("rule_cond_op", None)
+        dep.pop("rule_cond_not", None)
+        spec["transformations"].append(dep)
     if chance(rng, post):
         spec["postprocessing"] = [gen_postprocessing(rng, tag + str(i)) for i in range(rng.randint(1, 2))]
     if chance(rng, final):
